@@ -405,3 +405,18 @@ package channels
 
 //@ func (*channels.Channels).dispatch {C17}
 //@   ensures [forward-once] calls(dyn.Notifier) == 1 && seq(dyn.Notifier)
+
+// ---------------------------------------------------------------------------------------------
+// Construction: the state machine group gets exactly the table, entry functions and finality states above
+
+//@ extern func github.com/filecoin-project/go-ds-versioning/pkg/fsm.NewVersionedFSM
+//@ func channels.New {C13,C02,C09,C17,C06}
+//@   ensures [wiring] calls(NewVersionedFSM) <= 1 && all(NewVersionedFSM, $0 == ds && $1.Environment == env && $1.StateKeyField == "Status" &&
+//@       $1.Events == ChannelEvents && $1.StateEntryFuncs == ChannelStateEntryFuncs && $1.FinalityStates == ChannelFinalityStates &&
+//@       $3 == "3" && dyntype_is($1.StateType, internal.ChannelState))
+//@   ensures [migrations] calls(NewVersionedFSM) == 1 ==> first(GetChannelStateMigrations) && ret(GetChannelStateMigrations, 1) == nil &&
+//@       arg(NewVersionedFSM, 2) == ret(GetChannelStateMigrations, 0)
+//@   ensures [ok] err == nil ==> result0 != nil && calls(NewVersionedFSM) == 1 && (*result0).stateMachines == ret(NewVersionedFSM, 0) &&
+//@       (*result0).blockIndexCache != nil && (*result0).progressCache != nil
+//@ func (*channels.Channels).Start {C13}
+//@   ensures [migrates] seq(dyn.func) && result == ret(dyn.func, 0)
